@@ -34,10 +34,19 @@ type Solver struct {
 	cross      *Solver
 	crossEvery int
 	crossN     int
+	// fallback solver (cvc5), started on the first query the primary solver answers "unknown" to:
+	// nonlinear / div-mod heavy queries (calendar arithmetic) that one solver gives up on and the
+	// other decides; a sat answer is replayed natively like any other
+	fallback     *Solver
+	fallbackDead bool
 }
 
 // cross-solver statistics of the whole run
 var crossCompared, crossAgreed, crossDisagreed, crossSecondUnknown int64
+
+// queries the primary solver answered "unknown" to, and how many of them the fallback solver decided
+var fallbackAsked, fallbackDecided int64
+var fallbackOff = os.Getenv("VX_FALLBACK") == "off"
 
 // AttachCross starts a second solver of the given kind next to s.
 func (s *Solver) AttachCross(name string, every int, timeoutMs int) error {
@@ -107,6 +116,9 @@ func (s *Solver) Close() {
 	if s.cross != nil {
 		s.cross.Close()
 	}
+	if s.fallback != nil {
+		s.fallback.Close()
+	}
 	s.in.Close()
 	done := make(chan struct{})
 	go func() { s.cmd.Wait(); close(done) }()
@@ -121,6 +133,9 @@ func (s *Solver) Close() {
 func (s *Solver) Reset(tb *TB) {
 	if s.cross != nil {
 		s.cross.Reset(tb)
+	}
+	if s.fallback != nil {
+		s.fallback.Reset(tb)
 	}
 	s.tb = tb
 	s.emitted = map[int32]bool{}
@@ -397,6 +412,32 @@ done:
 		}
 	}
 	io.WriteString(s.in, "(pop 1)\n")
+	if verdict == VUnknown && note == "unknown" && s.name != "cvc5" && !fallbackOff && !s.fallbackDead {
+		fb := s.fallback
+		if fb == nil && s.cross != nil && s.cross.name == "cvc5" && !s.cross.dead {
+			fb = s.cross
+		}
+		if fb == nil {
+			if c, err := NewSolver("cvc5", s.tb, s.timeout); err == nil {
+				c.log = nil
+				s.fallback = c
+				fb = c
+			} else {
+				s.fallbackDead = true
+			}
+		}
+		if fb != nil {
+			atomic.AddInt64(&fallbackAsked, 1)
+			v2, m2, n2 := fb.Check(asserts, side, modelVars)
+			if fb.dead && fb == s.fallback {
+				s.fallback = nil
+			}
+			if v2 != VUnknown && n2 == "" {
+				atomic.AddInt64(&fallbackDecided, 1)
+				verdict, model, note = v2, m2, ""
+			}
+		}
+	}
 	if s.cross != nil && verdict != VUnknown {
 		s.crossN++
 		if s.crossN%s.crossEvery == 0 && !s.cross.dead {
